@@ -56,10 +56,15 @@ func ruleNibbles(c *Ctx, r *Report, rule string) {
 		r.bad(rule, "pack", "bindStmt not found", "")
 	} else {
 		ok := false
-		for _, cs := range c.callsOf(fd) {
-			if cs.Name != "parser.emitByte" || len(cs.Call.Args) != 1 {
-				continue
+		// in the bind statement or a helper it is split into
+		var sites []*ast.CallExpr
+		c.walkCallsDeep(c.Bcl, fd.Body, func(call *ast.CallExpr) {
+			if c.calleeName(call) == "parser.emitByte" && len(call.Args) == 1 {
+				sites = append(sites, call)
 			}
+		})
+		for _, call := range sites {
+			cs := struct{ Call *ast.CallExpr }{call}
 			be, isB := c.stripConv(cs.Call.Args[0]).(*ast.BinaryExpr)
 			if !isB || be.Op != token.OR {
 				continue
